@@ -106,7 +106,13 @@ check('C03',
       'one-token deletion/duplication/replacement/swap/insertion of a 50-expression corpus, is parsed by all four parsers and, when it parses, '
       'evaluated under three contexts; the outcome must be a value or an ElementPathError carrying an err: code - any other exception type or a '
       'watchdog timeout is a violation, identified by exception type and raising function. All histories of depth 2 (quick) / 3 (thorough) over '
-      '24 strings that fail at every stage of parsing or succeed are run on ONE parser instance and every string must then behave as on a fresh parser.',
+      '50 strings that fail at every stage of parsing or succeed are run on ONE parser instance and every string must then behave as on a fresh parser '
+      '(a difference is minimised by greedy removal, each trial replayed on a fresh parser). Operator matrix: every binary operator x every ordered pair of '
+      '~65 edge values (zeros of every numeric type, INF/NaN, 2^63, 10^40, a 401-digit integer, durations, dates, untyped, QName, binaries, maps, arrays, '
+      'function items, node-sets), as literals (static evaluation inside parse()) and bound to variables. Function matrix: EVERY function and constructor '
+      'registered in each parser symbol table x every arity it accepts up to 3 x arguments from a 23-value alphabet (7 values at arity 3). Pumped inputs: 18 '
+      'repeatable lexical/syntactic elements (unterminated literal, open comment, nested parentheses, operator/path/predicate chains, digits ...) at 13 '
+      '(thorough 17) sizes up to 64 (256) under the watchdog, plus a 5000-digit integer.',
       'which error code is raised is not judged; the watchdog is 20 s per case',
       'DESIGN.md section 3 C03')
 check('C04',
@@ -115,7 +121,9 @@ check('C04',
       'operators with their fixed right operand, =>, and a prefix minus on each operand position - is parsed flat and in the fully parenthesised '
       'form the EBNF transcription prescribes; the token trees must be identical and evaluate alike under two contexts, and a chain the EBNF does '
       'not derive must at least fail cleanly. Every single-gap substitution of whitespace / newline / (: comment :) / nested comment and every '
-      'uniform filler leaves the tree unchanged. parse(tok.source) reproduces tree and value. The whole pair table (all versions) is recomputed '
+      'uniform filler leaves the tree unchanged, also at every gap of a 72-expression corpus of postfix and primary syntax (predicates, calls, lookups, '
+      'arrows, constructors, sequence types, FLWOR-like expressions). parse(tok.source) reproduces tree and value, also for every full binary tree over 2-4 '
+      'numeric leaves x operators x redundant parentheses x 10 wrappers. The whole pair table (all versions) is recomputed '
       'in subprocesses under PYTHONHASHSEED 0-3 and VERIF_SEED (thorough: 0-31) and the digests must agree.',
       'reference mc/models/xpgrammar.py; chains where * or + directly follows a sequence type are skipped (occurrence-indicator ambiguity rule)',
       'DESIGN.md section 3 C04')
